@@ -11,41 +11,83 @@ Open Scope N_scope.
 (* (1a) After any history, replaying the requests yields for every prefix of the
    main table exactly the next hops of the selectable paths that no selectable
    path beats in the decision steps before the router id (nothing if there is
-   no selectable path). *)
+   no selectable path).  Histories include inserts under a prefix limit and the
+   restarting-speaker deferral of a family: [run_ok] says that a deferral starts
+   while the family holds no route (it is started at boot); while it lasts
+   ([s_def]) nothing of the family is installed, once it has ended the statement
+   is the one of the property text. *)
 Theorem fib_replay_eq_ecmp_of_best :
   forall (c : cfg) (ops : list op) (p : prefix),
+    run_ok c Fixed st0 ops ->
     let s := fst (run c Fixed st0 ops) in
     let reqs := snd (run c Fixed st0 ops) in
-    fib_replay reqs (None, p) = fib_spec c (s_fl s) (d_l (s_get s p)).
+    fib_replay reqs (None, p) =
+    if memN (fst p) (s_def s) then [] else fib_spec c (s_fl s) (d_l (s_get s p)).
 Proof. exact C20_fib_replay_eq_ecmp_of_best. Qed.
 Check fib_replay_eq_ecmp_of_best :
   forall (c : cfg) (ops : list op) (p : prefix),
+    run_ok c Fixed st0 ops ->
     let s := fst (run c Fixed st0 ops) in
     let reqs := snd (run c Fixed st0 ops) in
-    fib_replay reqs (None, p) = fib_spec c (s_fl s) (d_l (s_get s p)).
+    fib_replay reqs (None, p) =
+    if memN (fst p) (s_def s) then [] else fib_spec c (s_fl s) (d_l (s_get s p)).
 Print Assumptions fib_replay_eq_ecmp_of_best.
 
-(* (1b) For a VPN prefix, every VRF with a kernel table holds the same next hops
-   when its import targets match the best path and nothing otherwise; the best
-   path referred to is a best path in the sense of the Spec. *)
-Theorem vrf_fib_replay_eq_ecmp_of_best :
-  forall (c : cfg) (ops : list op) (i id : N) (imp : list N),
+(* (1b) For a VPN prefix (VPNv4 or VPNv6), every VRF with a kernel table holds the
+   same next hops when its import targets match the best path and nothing
+   otherwise; the best path referred to is a best path in the sense of the Spec.
+   Outside the known class C20-3 (another VPN prefix with the same VRF-local
+   prefix, i.e. another route distinguisher, has been seen): see the witness. *)
+Theorem vrf_fib_replay_eq_ecmp_of_best_outside_known :
+  forall (c : cfg) (ops : list op) (p : prefix) (id : N) (imp : list N),
+    is_vpn p = true ->
     NoDup (map fst (c_vrfs c)) -> In (id, imp) (c_vrfs c) -> id <> 0 ->
+    run_ok c Fixed st0 ops ->
     let s := fst (run c Fixed st0 ops) in
     let reqs := snd (run c Fixed st0 ops) in
-    let l := d_l (s_get s (1, i)) in
-    fib_replay reqs (Some id, (2, i)) = vrf_spec c (s_fl s) imp l (hd_error (selectable l)) /\
+    let l := d_l (s_get s p) in
+    ~ Known_C20_3 p (s_keys s) ->
+    fib_replay reqs (Some id, local_pfx p) =
+      (if memN (fst p) (s_def s) then [] else vrf_spec c (s_fl s) imp l (hd_error (selectable l))) /\
     (forall b, hd_error (selectable l) = Some b -> is_best c (s_fl s) l b).
-Proof. exact C20_vrf_fib_replay_eq_ecmp_of_best. Qed.
-Check vrf_fib_replay_eq_ecmp_of_best :
-  forall (c : cfg) (ops : list op) (i id : N) (imp : list N),
+Proof. exact C20_vrf_fib_replay_eq_ecmp_of_best_outside_known. Qed.
+Check vrf_fib_replay_eq_ecmp_of_best_outside_known :
+  forall (c : cfg) (ops : list op) (p : prefix) (id : N) (imp : list N),
+    is_vpn p = true ->
     NoDup (map fst (c_vrfs c)) -> In (id, imp) (c_vrfs c) -> id <> 0 ->
+    run_ok c Fixed st0 ops ->
     let s := fst (run c Fixed st0 ops) in
     let reqs := snd (run c Fixed st0 ops) in
-    let l := d_l (s_get s (1, i)) in
-    fib_replay reqs (Some id, (2, i)) = vrf_spec c (s_fl s) imp l (hd_error (selectable l)) /\
+    let l := d_l (s_get s p) in
+    ~ Known_C20_3 p (s_keys s) ->
+    fib_replay reqs (Some id, local_pfx p) =
+      (if memN (fst p) (s_def s) then [] else vrf_spec c (s_fl s) imp l (hd_error (selectable l))) /\
     (forall b, hd_error (selectable l) = Some b -> is_best c (s_fl s) l b).
-Print Assumptions vrf_fib_replay_eq_ecmp_of_best.
+Print Assumptions vrf_fib_replay_eq_ecmp_of_best_outside_known.
+
+(* (1b, witness) the full statement fails inside the class: the VRF entry is keyed
+   by the prefix without its route distinguisher, and withdrawing one of two VPN
+   prefixes that share it empties the entry although the other is still importable. *)
+Theorem vrf_fib_replay_eq_ecmp_of_best_refuted :
+  exists (c : cfg) (ops : list op) (p : prefix) (id : N) (imp : list N),
+    is_vpn p = true /\ NoDup (map fst (c_vrfs c)) /\ In (id, imp) (c_vrfs c) /\ id <> 0 /\
+    run_ok c Fixed st0 ops /\
+    let s := fst (run c Fixed st0 ops) in
+    let l := d_l (s_get s p) in
+    Known_C20_3 p (s_keys s) /\
+    fib_replay (snd (run c Fixed st0 ops)) (Some id, local_pfx p) <>
+    (if memN (fst p) (s_def s) then [] else vrf_spec c (s_fl s) imp l (hd_error (selectable l))).
+Proof. exact C20_vrf_fib_replay_eq_ecmp_of_best_refuted. Qed.
+Check vrf_fib_replay_eq_ecmp_of_best_refuted :
+  exists (c : cfg) (ops : list op) (p : prefix) (id : N) (imp : list N),
+    is_vpn p = true /\ NoDup (map fst (c_vrfs c)) /\ In (id, imp) (c_vrfs c) /\ id <> 0 /\
+    run_ok c Fixed st0 ops /\
+    let s := fst (run c Fixed st0 ops) in
+    let l := d_l (s_get s p) in
+    Known_C20_3 p (s_keys s) /\
+    fib_replay (snd (run c Fixed st0 ops)) (Some id, local_pfx p) <>
+    (if memN (fst p) (s_def s) then [] else vrf_spec c (s_fl s) imp l (hd_error (selectable l))).
+Print Assumptions vrf_fib_replay_eq_ecmp_of_best_refuted.
 
 (* (2) The registrations outstanding for an address equal the number of
    peer-learned paths currently using it (peer-level operations never name the
@@ -92,6 +134,39 @@ Check unreachable_nexthop_excluded :
     (unreachable_after ops a false = true -> ~ In e (selectable l)) /\
     (unreachable_after ops a false = false -> e_filt e = false -> In e (selectable l)).
 Print Assumptions unreachable_nexthop_excluded.
+
+(* (3') Finding C20-4 (fixed): an insert_route that takes its shard lock after the
+   reachability reports [mids] of another thread were applied consults the set of
+   unreachable next hops as it is then, i.e. it is the insert of the sequential history
+   [pre ++ mids ++ [Insert ...]] to which (1)-(3) apply; the harness drives exactly
+   this schedule on real threads (Model: run_race). *)
+Theorem insert_race_is_sequential :
+  forall (c : cfg) (pre mids : list op) (peer sess : N) (p : prefix) (pid : N) (nh : option nexthop) (tok : N),
+    let s1 := fst (run c Fixed st0 (pre ++ mids)) in
+    step_ins_with c Fixed s1 (s_inv s1) peer sess p pid nh tok = step c Fixed s1 (Insert peer sess p pid nh tok).
+Proof. exact C20_insert_race_is_sequential. Qed.
+Check insert_race_is_sequential :
+  forall (c : cfg) (pre mids : list op) (peer sess : N) (p : prefix) (pid : N) (nh : option nexthop) (tok : N),
+    let s1 := fst (run c Fixed st0 (pre ++ mids)) in
+    step_ins_with c Fixed s1 (s_inv s1) peer sess p pid nh tok = step c Fixed s1 (Insert peer sess p pid nh tok).
+Print Assumptions insert_race_is_sequential.
+
+(* (3', witness) with the set read before the lock (the code before the fix) a path inserted
+   while the report is applied stays selectable although its next hop is unreachable. *)
+Theorem unreachable_nexthop_excluded_early_read_refuted :
+  exists (c : cfg) (pre mids : list op) peer sess p pid nh tok (e : entry) (a : N),
+    let s := early_state c pre mids peer sess p pid nh tok in
+    let l := d_l (s_get s p) in
+    In e l /\ e_nh e = Some a /\
+    unreachable_after (pre ++ mids ++ [Insert peer sess p pid nh tok]) a false = true /\ In e (selectable l).
+Proof. exact C20_unreachable_nexthop_excluded_early_read_refuted. Qed.
+Check unreachable_nexthop_excluded_early_read_refuted :
+  exists (c : cfg) (pre mids : list op) peer sess p pid nh tok (e : entry) (a : N),
+    let s := early_state c pre mids peer sess p pid nh tok in
+    let l := d_l (s_get s p) in
+    In e l /\ e_nh e = Some a /\
+    unreachable_after (pre ++ mids ++ [Insert peer sess p pid nh tok]) a false = true /\ In e (selectable l).
+Print Assumptions unreachable_nexthop_excluded_early_read_refuted.
 
 (* Witnesses kept from before the fix commits (findings C20-1, C20-2): the
    behaviour of distribute_update at that time ([Legacy]) violates (1a) and (1b). *)
